@@ -601,6 +601,22 @@ def _scalarise_records(model, rel, fn):
     T().visit(fn)
 
 
+def _bound_once_before(fn, name, st):
+    """`name` is bound exactly once in fn, by a plain assignment that is an earlier statement of the very block `st` is in (so it holds at st and ever after)"""
+    n_st = sum(1 for x in ast.walk(fn) if isinstance(x, ast.Name) and x.id == name and isinstance(x.ctx, (ast.Store, ast.Del)))
+    if n_st != 1:
+        return False
+    for node in ast.walk(fn):
+        for f_ in ("body", "orelse", "finalbody"):
+            blk = getattr(node, f_, None)
+            if isinstance(blk, list) and any(x is st for x in blk):
+                for prev in blk[: next(i for i, x in enumerate(blk) if x is st)]:
+                    if isinstance(prev, ast.Assign) and len(prev.targets) == 1 and isinstance(prev.targets[0], ast.Name) and prev.targets[0].id == name:
+                        return True
+                return False
+    return False
+
+
 def _cond_funcs(fn):
     """N19: a function chosen by a condition - `if c: def f(x): return E  else: f = g` (or `f = A if c else B`) - with calls `f(a)`:
     the calls become `E[x:=a] if c else g(a)` when c is pure and not affected by stores of the function, the arguments are
@@ -653,7 +669,7 @@ def _cond_funcs(fn):
         if isinstance(x, ast.Assign) and len(x.targets) == 1 and isinstance(x.targets[0], ast.Name) and isinstance(x.value, ast.IfExp) and stores.get(x.targets[0].id) == 1 \
                 and x.targets[0].id not in params and all(isinstance(v, (ast.Lambda, ast.Name, ast.Attribute)) for v in (x.value.body, x.value.orelse)) and is_pure(x.value.test) \
                 and any(isinstance(v, ast.Lambda) for v in (x.value.body, x.value.orelse)) \
-                and not any(isinstance(n_, ast.Name) and stores.get(n_.id) for n_ in ast.walk(x.value.test)):
+                and not any(isinstance(n_, ast.Name) and stores.get(n_.id) and not _bound_once_before(fn, n_.id, x) for n_ in ast.walk(x.value.test)):
             cands[x.targets[0].id] = x
     if not cands:
         return
